@@ -705,3 +705,21 @@ mutant('C11-R6-eviction-without-accounting', ['C11'], ['C11.R6|table|evict|reser
             }
         }
     }''')])
+
+# ---------------------------------------------------------------- rules added from seeded changes (second batch)
+mutant('C14-R7-pong-not-restored-under-backpressure', ['C14'], ['C14.R7|no-loss|pending_pong'],
+       'send_pending_pong forgets the owed PONG when the codec is not ready',
+       [('src/proto/ping_pong.rs', '''            if !dst.poll_ready(cx)?.is_ready() {
+                self.pending_pong = Some(pong);
+                return Poll::Pending;
+            }
+
+            dst.buffer(Ping::pong(pong).into())''', '''            if !dst.poll_ready(cx)?.is_ready() {
+                let _ = pong;
+                return Poll::Pending;
+            }
+
+            dst.buffer(Ping::pong(pong).into())''')])
+mutant('C14-R7-settings-slot-taken-before-ready', ['C14'], ['C14.R7|no-loss|remote'],
+       'Settings::poll_send empties the slot before the codec accepted the ACK',
+       [('src/proto/settings.rs', '''        if let Some(settings) = self.remote.clone() {''', '''        if let Some(settings) = self.remote.take() {''')])
